@@ -82,6 +82,9 @@ pub enum Which {
     C07,
     /// fragment stage of C14: operands handed in as `expr` fragments of a `macro_rules!` wrapper
     C14,
+    /// chain stage of C06: `~` inside the sync try macros (wherever a step can end in the Option / Result
+    /// of the macro); the reference stops at the end of the first step in which a branch fails
+    C06,
     /// chain stage of C03: `~` in front of every operator spelling, several branches; the reference is
     /// evaluated step by step across the branches and marks the step boundaries
     C03,
@@ -94,12 +97,13 @@ fn gen_prog(rng: &mut TestRng, i: usize, which: Which) -> ChainProg {
         Which::C07 => ["join_spawn", "try_join_spawn", "spawn", "try_spawn", "join_async_spawn", "try_join_async_spawn", "async_spawn", "try_async_spawn"][i % 8],
         // the non-try macros (the generator places `~` only there: a failing try step ends the evaluation)
         Which::C03 => ["join", "join_spawn", "join", "spawn", "join_async", "join", "join_async_spawn", "async_spawn"][i % 8],
+        Which::C06 => ["try_join", "try_join_spawn", "try_join", "try_spawn"][i % 4],
         _ => MACROS[i % 12],
     };
     let kind = macro_kind(mac);
     let real_ok = |c: Comb| matches!(c, Comb::Map | Comb::AndThen | Comb::Filter | Comb::Dot | Comb::Then | Comb::OrElse | Comb::MapErr | Comb::Collect | Comb::Chain | Comb::FilterMap | Comb::Enumerate | Comb::Flatten | Comb::Fold | Comb::TryFold | Comb::Zip | Comb::Unzip | Comb::Inspect);
     let forced_comb = match which {
-        Which::C01 | Which::C10 | Which::C14 | Which::C03 => Some(SPELLINGS[i % 22].1),
+        Which::C01 | Which::C10 | Which::C14 | Which::C03 | Which::C06 => Some(SPELLINGS[i % 22].1),
         Which::C02 => Some(WRAPPERS[(i / 3) % 10]),
         _ => None,
     };
@@ -112,7 +116,7 @@ fn gen_prog(rng: &mut TestRng, i: usize, which: Which) -> ChainProg {
     if which == Which::C19 {
         nb = rng.random_range(1..8usize); // wide joins too
     }
-    if which == Which::C07 || which == Which::C03 {
+    if which == Which::C07 || which == Which::C03 || which == Which::C06 {
         nb = rng.random_range(2..5usize); // at least two branches: something is spawned
     }
     let try_res = rb(rng, 0.5) || kind.is_async;
@@ -127,7 +131,7 @@ fn gen_prog(rng: &mut TestRng, i: usize, which: Which) -> ChainProg {
     // not a block operand)
     let frag_c01 = which == Which::C01 && (i / 22) % 5 == 4;
     let (force, close_mode) = match which {
-        Which::C01 | Which::C10 | Which::C14 | Which::C03 => {
+        Which::C01 | Which::C10 | Which::C14 | Which::C03 | Which::C06 => {
             let (sp, c) = SPELLINGS[i % 22];
             (Some((c, sp == ">.", false)), 0)
         }
@@ -331,6 +335,16 @@ fn gen_prog(rng: &mut TestRng, i: usize, which: Which) -> ChainProg {
                     if ok {
                         ops[k].deferred = true;
                     }
+                }
+            }
+        }
+        // C06: `~` in the sync try macros, wherever the step then ends in the macro's Option / Result
+        if which == Which::C06 {
+            for k in 1..ops.len() {
+                let w = if try_res { matches!(&ops[k - 1].out, Ty::Res(_)) } else { matches!(&ops[k - 1].out, Ty::Opt(_)) };
+                // (always in front of the forced operator, so that every spelling is met behind a `~`)
+                if w && (rb(g.rng, 0.6) || (b == 0 && Some(ops[k].comb) == force.map(|f| f.0))) {
+                    ops[k].deferred = true;
                 }
             }
         }
@@ -747,6 +761,10 @@ pub struct CaseCode {
     pub concurrent: bool,
 }
 
+fn all_steps_has_deferred(p: &ChainProg) -> bool {
+    p.branches.iter().any(|b| b.ops.iter().any(|o| o.deferred))
+}
+
 pub fn case_code(p: &ChainProg, idx: usize) -> CaseCode {
     let kind = macro_kind(&p.mac);
     let fam = p.fam;
@@ -763,7 +781,11 @@ pub fn case_code(p: &ChainProg, idx: usize) -> CaseCode {
     let concurrent = n >= 2;
     let mut counter = 0usize;
     let mut inner = String::new();
-    let step_major = WHICH.with(|w| w.get()) == Which::C03;
+    let which_now = WHICH.with(|w| w.get());
+    // C06: steps of the sync try macros - after every step the first failing active branch ends the evaluation
+    let try_steps = which_now == Which::C06 && kind.is_try && !kind.is_async && all_steps_has_deferred(p);
+    let step_major = which_now == Which::C03 || try_steps;
+    let try_res = p.branches.first().map(|b| matches!(b.fin, Ty::Res(_))).unwrap_or(true);
     // split the top-level operators of every branch at `~`
     let all_steps: Vec<Vec<Vec<COp>>> = p
         .branches
@@ -802,7 +824,23 @@ pub fn case_code(p: &ChainProg, idx: usize) -> CaseCode {
     let mut marked: Option<usize> = None;
     for (i, j) in order {
         if step_major && marked != Some(j) {
-            inner.push_str(&format!("    smark({});\n", j));
+            if try_steps {
+                if let Some(jp) = marked {
+                    // end of step jp: the lowest-numbered active branch that failed is the macro's value
+                    for b in 0..n {
+                        if jp < all_steps[b].len() {
+                            let name = if jp + 1 == all_steps[b].len() { format!("__b{}", b) } else { format!("__b{}_{}", b, jp) };
+                            if try_res {
+                                inner.push_str(&format!("    if {n}.is_err() {{ break 'eval Err({n}.err().unwrap()); }}\n", n = name));
+                            } else {
+                                inner.push_str(&format!("    if {n}.is_none() {{ break 'eval None; }}\n", n = name));
+                            }
+                        }
+                    }
+                }
+            } else {
+                inner.push_str(&format!("    smark({});\n", j));
+            }
             marked = Some(j);
         }
         let mut ops = all_steps[i][j].clone();
@@ -882,6 +920,8 @@ pub fn case_code(p: &ChainProg, idx: usize) -> CaseCode {
     if inner.contains("__cnt += 1") || result.contains("__cnt += 1") {
         inner = format!("    let mut __cnt: i64 = 0;\n{}", inner);
         inner.push_str(&format!("    let __r = {};\n    format!(\"{{:?}}\", (__r, __cnt))\n", result));
+    } else if try_steps {
+        inner = format!("    let __r = 'eval: {{\n{}    {}\n    }};\n    format!(\"{{:?}}\", __r)\n", inner, result);
     } else {
         inner.push_str(&format!("    let __r = {};\n    format!(\"{{:?}}\", __r)\n", result));
     }
@@ -1031,6 +1071,7 @@ pub fn run(id: &str, tier: &str, seed: u64) -> i32 {
         "C07" => Which::C07,
         "C14" => Which::C14,
         "C03" => Which::C03,
+        "C06" => Which::C06,
         _ => Which::C01,
     };
     WHICH.with(|w| w.set(which));
@@ -1052,6 +1093,7 @@ pub fn run(id: &str, tier: &str, seed: u64) -> i32 {
         Which::C17 => "nesting stage: typed chains under all 12 macro names in which 45 % of the callback operands are closures around a nested macro invocation (any of the 12 names, chosen by the type the operand must return; async ones driven by a no-op-waker poll loop), block captures that evaluate a nested invocation, initial values that are macro invocations, and (40 % of the programs) a then / map / and_then handler whose body is a nested invocation over the results; nested bodies are generated by the same chain generator, recursively to depth 3 (wrappers, captures, further nestings inside); a quarter of the programs are 'shadow' programs instead: 2-4 branches with `let` names, locals of the calling function spelled the same, and a handler that mentions them (it must see the caller's locals; the control spells the `let` names differently). Oracle (metamorphic + differential): the outer macro against the documented chain with the same operand text - so every nested invocation is evaluated once inside a macro expansion and once in plain Rust - equal results, callback traces and event multisets. Non-trivial = >= 2 operators and >= 1 callback invoked; classes count nestings by place, inner macro and depth",
         Which::C19 => "bounds stage: typed chains under join! / try_join! / join_async! / try_join_async! with 1-7 branches whose values include `Ns` (holds an Rc: neither Send nor Clone) and `Mv` (move-only) in 60 % of the scalar positions, and half of whose branches borrow - shared (`&Vec` iterated) or mutably (`iter_mut` with a callback that changes the element in place) - from locals of the calling function; 45 % of the programs have a then / map / and_then handler that borrows a local of the caller (async then / and_then: the future it returns holds the borrow); oracle: the macro side compiles whenever the documented chain compiles (a new Clone / Send / 'static requirement is a compile error on the macro side only) and both give the same result and callback traces. Non-trivial = >= 2 operators and >= 1 callback invoked",
         Which::C11 => "chain stage: typed chains in which program i is forced to contain hoistable operator i mod 18 (the 14 expression-operand operators, `^@` / `?^@` twice as often) with block operands on 60 % of the operand positions - both operands of fold / try_fold, operands inside nested wrappers, several per branch and step; oracle: per branch the sequence of capture evaluations equals the written (position) order, each exactly once. Non-trivial = >= 2 captures evaluated",
+        Which::C06 => "chain stage: typed chains with 2-4 branches under try_join! / try_join_spawn! / try_spawn!, program i forced to contain operator spelling i mod 22 (operand-less operators and wrappers included), `~` in front of 60 % of the top-level operators that follow a value of the macro's Option / Result type (only there can a step of a try macro end); inputs make initial values and callback results None / Err; the reference side evaluates the documented chains step by step across the branches and, at the end of every step, returns the value of the lowest-numbered active branch that is None / Err without evaluating anything further. Oracle: result, per-branch ordered traces and the multiset of all events equal - an operand, callback or block capture of a later step that still runs after a failing step is an extra event. Non-trivial = >= 2 operators and >= 1 callback invoked",
         Which::C03 => "chain stage: typed chains with 2-4 branches under the non-try macros (join! / join_spawn! / spawn! / join_async! / join_async_spawn! / async_spawn!; async ones over real futures and streams), program i forced to contain operator spelling i mod 22, `~` in front of half of the top-level operators - so in front of every spelling, the operand-less ones (`|n>`, `^^>`, `=>[]`, `<->`) and wrappers included; the reference side evaluates the documented chains step by step across the branches (step k of every branch, then step k+1) and logs a mark between steps, so every callback invocation, operand evaluation and block capture of the reference has a step number (lazy iterator adaptors: the step in which they are driven). Oracle: when macro and reference agree per branch, the macro's global event sequence must be non-decreasing in those step numbers - no event of step k+1 before the last event of step k, across all branches and threads / tasks. Non-trivial = >= 2 operators, >= 1 callback invoked, >= 2 steps",
         Which::C02 => "programs: typed chains in which program i is forced to contain wrapper operator (i / 3) mod 10 with closing mode i mod 3 (explicit `<<<`, implicit at the end of a step, implicit at the end of the branch), nesting depth <= 3, inner chains of length 0-3 generated goal-directed for the type each wrapper needs (&T -> bool for ?> ?@ ?&!>, T -> Option for ?|> ?|>@ =>, E -> Result for <=, E -> E for !>, &W -> () for ??), inner block captures, operators after `<<<`; all 12 macro names; inputs and oracle as C01 with the reference `.x(|v| v inner...) rest`. Non-trivial = >= 2 operators and >= 1 callback invoked",
     }
@@ -1063,7 +1105,7 @@ pub fn run(id: &str, tier: &str, seed: u64) -> i32 {
         "futures and streams in the async chains are immediately ready (ready(), stream::iter): pending points are the business of C03 / C09".into(),
     ];
     let known = evid::Known::load();
-    let mut runner = new_runner(seed, match which { Which::C01 => 0xc01, Which::C02 => 0xc02, Which::C10 => 0xc10, Which::C11 => 0xc11, Which::C19 => 0xc19, Which::C17 => 0xc17, Which::C12 => 0xc12, Which::C07 => 0xc07, Which::C14 => 0xc14, Which::C03 => 0xc03 }, 1);
+    let mut runner = new_runner(seed, match which { Which::C01 => 0xc01, Which::C02 => 0xc02, Which::C10 => 0xc10, Which::C11 => 0xc11, Which::C19 => 0xc19, Which::C17 => 0xc17, Which::C12 => 0xc12, Which::C07 => 0xc07, Which::C14 => 0xc14, Which::C03 => 0xc03, Which::C06 => 0xc06 }, 1);
     let mut progs: Vec<ChainProg> = Vec::new();
     let mut seen = HashSet::new();
     for i in 0..count {
